@@ -105,6 +105,15 @@ Example C07_nonvacuous_numbers :
   = Some [(10, 1); (0, 1); (8, 16); (0, 1); (3, 1); (0, 1); (1, 100); (0, 1); (0, 1)].
 Proof. vm_compute. reflexivity. Qed.
 
+(* a numeral ends where Lua 5.2's read_numeral stops: a keyword or a name may follow it directly; a run
+   that is no numeral (9d, 1a) stays undefined *)
+Example C07_nonvacuous_numeral_then_word :
+  option_map (map (fun t => (skind_code (s_kind t), s_raw t))) (spec_lex (bs_ "x<1then 0x1g 3x"))
+  = Some [(5, bs_ "x"); (8, bs_ "<"); (4, bs_ "1"); (7, bs_ "then"); (0, bs_ " "); (4, bs_ "0x1"); (5, bs_ "g");
+          (0, bs_ " "); (4, bs_ "3"); (5, bs_ "x")]
+  /\ spec_lex (bs_ "for i=1,9do") = None /\ spec_lex (bs_ "1and") = None.
+Proof. vm_compute. auto. Qed.
+
 Example C07_model_on_examples :
   match model_lex [bs_ "x=[[" ++ [10] ++ bs_ "k]] --c" ++ [13; 10] ++ bs_ "y='\x41'"] with
   | Ok ts => map (fun t => (kind_code (t_kind t), tok_str_value t, t_line t, t_col t)) ts
